@@ -7,6 +7,7 @@ import (
 	"fmt"
 	"go/token"
 	"go/types"
+	"sort"
 	"strings"
 
 	"golang.org/x/tools/go/ssa"
@@ -164,6 +165,7 @@ func runC10(c *Ctx) {
 	c.rule("R-RING-MIRROR", 4, "every store A.next = B has in the same block a store B.prev = A and vice versa")
 	c.rule("R-YIELD", 4, "Stack.Each, List.Each, Queue.Each, ring.scan/Each stop after f returned false")
 	ruleNoopGuard(c, "ring")
+	ruleWrapChecked(c)
 	c.rule("R-LEN-EFFECT", 3, "every path through a Stack method that rewrites the list leaves its length at L0+1 (Push, Add), L0−1 (Pop), 0 (Clear) or unchanged")
 	if lf := firstSliceField(P, "stack", "Stack"); lf != nil {
 		ruleLenEffect(c, "R-LEN-EFFECT", "stack", "Stack", lf, map[string]lform{
@@ -926,4 +928,64 @@ func firstSliceField(P *Prog, pkg, typ string) *types.Var {
 		}
 	}
 	return nil
+}
+
+// ruleWrapChecked: Ring.At(n) answers nil when the walk comes back to its start.
+// Every node it can return that was reached by following a link (a call of
+// Next/Prev, a call through a function value, a load of a link field) must have
+// been compared with the receiver: a shortcut that returns r.next unexamined
+// returns r itself on a one-element ring, where the documented answer is nil.
+func ruleWrapChecked(c *Ctx) {
+	P := c.P
+	c.rule("R-WRAP-CHECKED", 1, "every node Ring.At returns that was reached through a link has been compared with the receiver (the wrap test)")
+	at := P.Func("ring", "Ring", "At")
+	if at == nil {
+		c.undecided("ANCHOR", "ring.(*Ring).At", 0, "not found")
+		return
+	}
+	c.sawFn(fnName(at))
+	recv := at.Params[0]
+	comparedWithRecv := func(v ssa.Value) bool {
+		for _, r := range referrersOf(v) {
+			if bo, ok := r.(*ssa.BinOp); ok && (bo.Op == token.EQL || bo.Op == token.NEQ) {
+				if (bo.X == v && bo.Y == ssa.Value(recv)) || (bo.Y == v && bo.X == ssa.Value(recv)) {
+					return true
+				}
+			}
+		}
+		return false
+	}
+	n := 0
+	var bad []string
+	seen := map[ssa.Value]bool{}
+	var walk func(v ssa.Value)
+	walk = func(v ssa.Value) {
+		if seen[v] {
+			return
+		}
+		seen[v] = true
+		switch x := v.(type) {
+		case *ssa.Phi:
+			for _, e := range x.Edges {
+				walk(e)
+			}
+		case *ssa.Const, *ssa.Parameter:
+		case *ssa.Call, *ssa.UnOp:
+			n++
+			if !comparedWithRecv(v) {
+				bad = append(bad, fmt.Sprintf("%s at %s", ksym(v), P.pos(v.Pos())))
+			}
+		}
+	}
+	allInstrs(at, func(in ssa.Instruction) {
+		if ret, ok := in.(*ssa.Return); ok && len(ret.Results) == 1 {
+			walk(ret.Results[0])
+		}
+	})
+	sort.Strings(bad)
+	if n == 0 {
+		c.undecided("R-WRAP-CHECKED", "ring.(*Ring).At:returned nodes", at.Pos(), "At returns no node reached through a link")
+		return
+	}
+	c.judge(len(bad) == 0, "R-WRAP-CHECKED", "ring.(*Ring).At:returned nodes", at.Pos(), fmt.Sprintf("%d link-derived value(s), each compared with the receiver", n), fmt.Sprintf("At can return %v without the wrap test: on a ring where that link leads back to the receiver (a one-element ring) it answers the receiver itself instead of nil, so Peek reports an element that Len and every other offset deny", bad))
 }
